@@ -107,7 +107,13 @@ func VerifC07WindowStep() {
 	}
 	nacked := verifBool("nacked")
 	count := 1 + verifConcrete(verifChoice("count", 3))
-	got := w.store(count, nacked)
+	// through the public operations (Ack has shortcuts of its own)
+	got := count
+	if nacked {
+		got = w.Nack(count)
+	} else {
+		w.Ack(count)
+	}
 
 	// reference over the outcome list
 	hist := old
